@@ -322,6 +322,12 @@ impl Client {
         Ok(session)
     }
 
+    /// H6: the client's pool, for oracles
+    #[cfg(anytls_verif)]
+    pub fn verif_pool(&self) -> Arc<SessionPool> {
+        Arc::clone(&self.session_pool)
+    }
+
     /// Stop the background cleanup task in the session pool (primarily for tests)
     pub async fn stop_session_pool_cleanup(&self) {
         self.session_pool.stop_cleanup_task().await;
